@@ -32,6 +32,15 @@ func (s *smA) TwoArgs(t *rapid.T, n int) {
 	s.bogus("TwoArgs")
 }
 
+// exported helpers that take the right kind of argument but return something: not of the form func(*T) / func(TB)
+func (s *smA) Drain(t rapid.TB) int { s.bogus("Drain"); return 0 }
+func (s *smA) Top(t interface{ Fatalf(string, ...any) }) (int, bool) {
+	s.bogus("Top")
+	return 0, false
+}
+func (s *smA) Many(ts ...*rapid.T) { s.bogus("Many") }
+func (s *smA) Any(x any)           { s.bogus("Any") }
+
 // smB: value receiver, TB-only actions.
 type smB struct{ b *smBase }
 
@@ -43,6 +52,14 @@ func (s smB) Check(t *rapid.T) { s.b.run("", t) }
 func (s smB) Returns(t *rapid.T) error {
 	s.b.bogus("Returns")
 	return nil
+}
+func (s smB) Size(t rapid.TB) int { s.b.bogus("Size"); return 0 }
+func (s smB) Peek(t interface {
+	Helper()
+	Name() string
+}) string {
+	s.b.bogus("Peek")
+	return ""
 }
 
 // smActions wraps an actions map into a state machine object and lets the library derive the map again.
